@@ -243,8 +243,28 @@ pub fn run(ctx: &Ctx) -> (Outcome, String, Option<bool>) {
             },
         ));
     }
+    {
+        // liquidity lifecycles (C16's plan shape under C15's pool-heavy profile): several swaps from both sides, several
+        // deposits and withdrawals per pool per block - judged by this check's conservation oracle
+        let p4 = super::c15::profile2();
+        let prof4 = p4.clone();
+        out.absorb(crate::runner::run_sharded(
+            ctx,
+            "liquidity-lifecycles",
+            ctx.scale(250, 4000),
+            move || {
+                use proptest::strategy::Strategy;
+                super::c16::arb_liquidity_plan(&prof4).prop_map(|p| super::hist::Phase2 { phase2: p })
+            },
+            |plan, st, shard| {
+                st.eval();
+                st.class("lifecycle-history");
+                crate::plan::run_plan(&plan.phase2, &p4, &mut C01::default(), st, shard)
+            },
+        ));
+    }
     out.absorb(super::hist::run_sampled_heights(ctx, &profile(), ctx.scale(300, 3000), C01::default));
-    let rule = "Also: the first phase's kind of histories on mainnet/testnet (85%) started at a height sampled anywhere below 2 000 000 (TIP-906 barrier crossed honestly first). Third phase: histories dense in genuine proof-of-work mints from a low recorded DOSC speed (coins of several ages, consecutive blocks, a fifth of the claims one unit above the reward). Second phase: C16's hand-built scenarios at the edge of the u128 liquidity counter (two fresh tokens, 2-6 deposits of 2^0..2^120 per side, withdrawals), checked for issuance: liquidity tokens handed out in a block <= rise of the pool's counter; coins + reserve of either token <= what was created. First phase: generated histories (2-14 steps quick / 2-40 thorough) on Custom02/Custom08/Testnet/Mainnet: batches of valid-by-construction transactions of every kind (normal, faucet, swap, deposit, withdraw, stake, new token) with dependent transactions inside a batch, shuffled orders, ~15% adversarial mutations, pool keys in canonical and 6 alternative spellings, proposer actions, restarts. Oracle: invariant on the real state read through the cfg(melstf_verif) view: per denomination, coins + pool reserves (+ fee pool + tips for MEL) after a batch <= before + faucet outputs/fee + the transaction's own new token + ERG of mints; after a seal <= before + growth of the pool's recorded liquidity (for liquidity tokens) + the TIP-909 subsidy + the unthrottled peg distance computed by RefSTF. Non-trivial = history with >=1 accepted non-faucet transaction and >=1 seal; distinct by the sequence of coin roots.".to_string();
+    let rule = "Also: the first phase's kind of histories on mainnet/testnet (85%) started at a height sampled anywhere below 2 000 000 (TIP-906 barrier crossed honestly first). Fourth phase: liquidity lifecycles (several swaps from both sides, deposits and withdrawals per pool per block; C15's pool-heavy profile), same conservation oracle. Third phase: histories dense in genuine proof-of-work mints from a low recorded DOSC speed (coins of several ages, consecutive blocks, a fifth of the claims one unit above the reward). Second phase: C16's hand-built scenarios at the edge of the u128 liquidity counter (two fresh tokens, 2-6 deposits of 2^0..2^120 per side, withdrawals), checked for issuance: liquidity tokens handed out in a block <= rise of the pool's counter; coins + reserve of either token <= what was created. First phase: generated histories (2-14 steps quick / 2-40 thorough) on Custom02/Custom08/Testnet/Mainnet: batches of valid-by-construction transactions of every kind (normal, faucet, swap, deposit, withdraw, stake, new token) with dependent transactions inside a batch, shuffled orders, ~15% adversarial mutations, pool keys in canonical and 6 alternative spellings, proposer actions, restarts. Oracle: invariant on the real state read through the cfg(melstf_verif) view: per denomination, coins + pool reserves (+ fee pool + tips for MEL) after a batch <= before + faucet outputs/fee + the transaction's own new token + ERG of mints; after a seal <= before + growth of the pool's recorded liquidity (for liquidity tokens) + the TIP-909 subsidy + the unthrottled peg distance computed by RefSTF. Non-trivial = history with >=1 accepted non-faucet transaction and >=1 seal; distinct by the sequence of coin roots.".to_string();
     (out, rule, None)
 }
 
@@ -252,5 +272,5 @@ pub fn replay(case: &serde_json::Value) -> Check {
     if case.get("deposits").is_some() {
         return super::c16::replay(case);
     }
-    super::hist::replay_any(case, &profile(), &profile(), C01::default())
+    super::hist::replay_any(case, &profile(), &super::c15::profile2(), C01::default())
 }
